@@ -67,6 +67,7 @@ class Opts:
         self.source_rs = True  # False: every Source gets rs = 0
         self.similar_sources = False  # all sources within x0.8..1.25 of the first one
         self.leaf_loads = True
+        self.zero_duration = False  # one phase (never all) may last exactly 0 s
         self.mux_focus = False  # a PMux in most systems, >= 2 inputs, 2-D ig table, and the
         #                         first declared input often a dead source
         self.avoid = ()
@@ -181,6 +182,9 @@ class _Gen:
         cls = draw(st.integers(0, 3))
         rng = {0: (1e-3, 0.2), 1: (0.1, 1e4), 2: (0.1, 1e4), 3: (1e-3, 1e6)}[cls]
         spec["phases"] = {nm: draw(logf(*rng)) for nm in names}
+        if o.zero_duration and self.chance(1, 5):
+            z = names[draw(st.integers(0, k - 1))]
+            spec["phases"][z] = 0 if self.chance(1, 2) else 0.0
         self.phase_names = names
 
     def _subset(self, names, allow_empty=True):
